@@ -134,11 +134,22 @@ func TestC13_Sort(t *testing.T) {
 		if rapid.IntRange(0, 2).Draw(t, "long") == 0 {
 			n = rapid.IntRange(13, maxLen).Draw(t, "nlong")
 		}
-		numeric := rapid.Bool().Draw(t, "numeric")
+		palKind := rapid.IntRange(0, 4).Draw(t, "palette")
+		numeric := palKind >= 2
 		distinct := rapid.IntRange(1, 4).Draw(t, "distinct")
 		pal := c13StrKeys
 		if numeric {
 			pal = c13NumKeys
+		}
+		if palKind == 4 {
+			// distinct numbers that are equal once rounded to binary64
+			pal = nil
+			for _, g := range gen.CloseNums {
+				pal = append(pal, g...)
+			}
+			if rapid.Bool().Draw(t, "onegroup") {
+				pal = gen.Pick(t, "closegroup", gen.CloseNums)
+			}
 		}
 		pool := make([]string, distinct)
 		for i := range pool {
